@@ -343,7 +343,9 @@ func bytesHaveSchemaLink(br blob.Ref, bb []byte, target blob.Ref) bool {
 			return d == target
 		}
 	case schema.TypeStaticSet:
-		if slices.Contains(b.StaticSetMembers(), target) {
+		// A large static-set is split: its members are then in the
+		// sub static-sets listed in mergeSets.
+		if slices.Contains(b.StaticSetMembers(), target) || slices.Contains(b.StaticSetMergeSets(), target) {
 			return true
 		}
 	}
